@@ -2,8 +2,12 @@ import LWV.Lemmas.RtSafe
 import LWV.Props.C09
 /-
 C09 (full) — the model of the radiotap parser (`Model.parseRadiotapInfo`, built on the model of the
-vendored iterator) decodes radiotap headers exactly as the declarative specification
-(`Spec.rtFields` / `Spec.rtValues`) says.
+vendored iterator `rtInit` / `rtNext`) decodes radiotap headers exactly as the declarative
+specification (`Spec.rtFields` / `Spec.rtValues`) says: for EVERY byte string the Spec accepts
+(any number of present words, namespace resets, vendor namespaces, undefined fields, fields running
+past `it_len`) the parser returns 0 and the values it reports are the Spec's (`C09_decode_full`).
+Corollaries: the single-word case (`C09_decode_single`) and the statement left open in
+`Props/C09.lean` (`C09_decode`).
 -/
 set_option linter.unusedSimpArgs false
 namespace LWV.Props.C09Full
@@ -291,164 +295,8 @@ theorem placeBits_rt (itLen w n b : Nat) (st : Spec.Walk) (h : w.testBit b = tru
     simp only [h, hs, hb, hns, Bool.or_self, Bool.false_eq_true, if_false, if_true]
 
 
-/-! ### single present word: the iterator against `placeBits` -/
-
-theorem div_pow_zero {w b : Nat} (hw : w < 2 ^ 29) (hb : 29 ≤ b) : w / 2 ^ b = 0 :=
-  Nat.div_eq_of_lt (Nat.lt_of_lt_of_le hw (Nat.pow_le_pow_right (by decide) hb))
-
 theorem testBit_shifter (w b : Nat) : w.testBit b = decide (w / 2 ^ b % 2 = 1) :=
   Nat.testBit_eq_decide_div_mod_eq
-
-/-- once the namespace is given up (or past bit 28) a word below 2^29 yields no further field -/
-theorem next_dead (bs : Bytes) (w : Nat) (hw : w < 2 ^ 29) : ∀ (fuel : Nat) (it : RtIt) (b : Nat),
-    it.argIndex = b → b ≤ 31 → it.shifter = w / 2 ^ b → (it.inRadiotapNs = false ∨ 29 ≤ b) → 32 ≤ fuel + b →
-    ∃ c, rtNext bs fuel it = .ok (.stop c) := by
-  intro fuel
-  induction fuel with
-  | zero => intro it b _ h1 _ _ h2; omega
-  | succ fuel ih =>
-    intro it b hidx hb hsh hdead hfuel
-    by_cases hp : it.shifter % 2 = 1
-    · have hb29 : b < 29 := by
-        by_cases h : b < 29
-        · exact h
-        · rw [hsh, div_pow_zero hw (by omega)] at hp; omega
-      have hns : it.inRadiotapNs = false := by rcases hdead with h | h; exact h; omega
-      rw [rtNext_giveup bs fuel it hp (by omega) hns]
-      exact ih _ (b + 1) (by show it.argIndex + 1 = b + 1; omega) (by omega)
-        (by show it.shifter / 2 = _; rw [hsh, pow_shift]) (Or.inl rfl) (by omega)
-    · have hp0 : it.shifter % 2 = 0 := by omega
-      by_cases h31 : b = 31
-      · exact ⟨_, rtNext_end bs fuel it hp0 (by omega)⟩
-      · rw [rtNext_absent bs fuel it hp0 (by omega)]
-        exact ih (nextEntry it) (b + 1) (by show it.argIndex + 1 = b + 1; omega) (by omega)
-          (by show it.shifter / 2 = _; rw [hsh, pow_shift]) (hdead.elim (fun h => Or.inl h) (fun h => Or.inr (by omega)))
-          (by omega)
-
-/-- the iterator stands before bit `b` of the (only) present word `w`, in the radiotap namespace -/
-structure Pos (itLen w : Nat) (it : RtIt) (b : Nat) : Prop where
-  idx : it.argIndex = b
-  sh : it.shifter = w / 2 ^ b
-  ns : it.inRadiotapNs = true
-  ml : it.maxLength = itLen
-
-
-theorem next_sim (bs : Bytes) (itLen w : Nat) (hw : w < 2 ^ 29) : ∀ (n b fuel : Nat) (it : RtIt),
-    b + n = 29 → Pos itLen w it b → 32 ≤ fuel + b →
-    (∃ it' b', rtNext bs fuel it = .ok (.hit it') ∧ b ≤ b' ∧ b' < 29 ∧ Pos itLen w it' (b' + 1) ∧
-        it'.thisArgIndex = b' ∧ it'.thisArgSize = rtSize b' ∧ it'.thisArg + it'.thisArgSize ≤ itLen ∧
-        ∀ fs, Spec.placeBits itLen w n b ⟨it.arg, .radiotap, 0, fs, false, false⟩ =
-          Spec.placeBits itLen w (28 - b') (b' + 1) ⟨it'.arg, .radiotap, 0, fs ++ [⟨b', it'.thisArg⟩], false, false⟩) ∨
-    (∃ c, rtNext bs fuel it = .ok (.stop c) ∧
-        ∀ fs, (Spec.placeBits itLen w n b ⟨it.arg, .radiotap, 0, fs, false, false⟩).fields = fs) := by
-  intro n
-  induction n with
-  | zero =>
-    intro b fuel it hbn hpos hfuel
-    obtain ⟨c, hc⟩ := next_dead bs w hw fuel it b hpos.idx (by omega) hpos.sh (Or.inr (by omega)) hfuel
-    exact Or.inr ⟨c, hc, fun fs => rfl⟩
-  | succ n ih =>
-    intro b fuel it hbn hpos hfuel
-    obtain ⟨fuel, rfl⟩ : ∃ f, fuel = f + 1 := ⟨fuel - 1, by omega⟩
-    have hmod : it.argIndex % 32 = b := by rw [hpos.idx]; omega
-    by_cases hp : it.shifter % 2 = 1
-    · have htb : w.testBit b = true := by rw [testBit_shifter, ← hpos.sh]; simp [hp]
-      by_cases hdef : b < Gen.rtapNBits ∧ rtAlign b ≠ 0
-      · have hstep := rtNext_field bs fuel it hp (by omega) hpos.ns (by rw [hpos.idx]; exact hdef.1) (by rw [hpos.idx]; exact hdef.2)
-        rw [hpos.idx, hpos.ml] at hstep
-        by_cases hfit : Spec.alignUp it.arg (rtAlign b) + rtSize b > itLen
-        · rw [if_pos hfit] at hstep
-          refine Or.inr ⟨_, hstep, fun fs => ?_⟩
-          rw [placeBits_rt _ _ _ _ _ htb rfl rfl rfl]
-          simp only [Nat.zero_add]
-          rw [if_pos hdef, if_pos hfit]
-        · rw [if_neg hfit] at hstep
-          refine Or.inl ⟨_, b, hstep, Nat.le_refl _, by omega, ⟨rfl, ?_, hpos.ns, rfl⟩, rfl, rfl,
-            by show Spec.alignUp it.arg (rtAlign b) + rtSize b ≤ itLen; omega, fun fs => ?_⟩
-          · show it.shifter / 2 = _; rw [hpos.sh, pow_shift]
-          · rw [placeBits_rt _ _ _ _ _ htb rfl rfl rfl]
-            simp only [Nat.zero_add]
-            rw [if_pos hdef, if_neg hfit]
-            have : n = 28 - b := by omega
-            rw [this]; rfl
-      · have hspec : ∀ fs, (Spec.placeBits itLen w (n + 1) b ⟨it.arg, .radiotap, 0, fs, false, false⟩).fields = fs := by
-          intro fs
-          rw [placeBits_rt _ _ _ _ _ htb rfl rfl rfl]
-          simp only [Nat.zero_add]
-          rw [if_neg hdef]
-        have hund : Gen.rtapNBits ≤ it.argIndex ∨ rtAlign it.argIndex = 0 := by
-          rw [hpos.idx]
-          by_cases hN : Gen.rtapNBits ≤ b
-          · exact Or.inl hN
-          · by_cases h : rtAlign b = 0
-            · exact Or.inr h
-            · exact absurd ⟨by omega, h⟩ hdef
-        exact Or.inr ⟨_, rtNext_beyond bs fuel it hp (by omega) hpos.ns hund, hspec⟩
-    · have hp0 : it.shifter % 2 = 0 := by omega
-      have htb : w.testBit b = false := by rw [testBit_shifter, ← hpos.sh]; simp [hp]
-      rw [rtNext_absent bs fuel it hp0 (by omega)]
-      have hpos' : Pos itLen w (nextEntry it) (b + 1) :=
-        ⟨by show it.argIndex + 1 = _; rw [hpos.idx], by show it.shifter / 2 = _; rw [hpos.sh, pow_shift], hpos.ns, hpos.ml⟩
-      rcases ih (b + 1) fuel (nextEntry it) (by omega) hpos' (by omega) with ⟨it', b', h1, h2, h3, h4, h5, h6, h7, h8⟩ | ⟨c, h1, h2⟩
-      · refine Or.inl ⟨it', b', h1, by omega, h3, h4, h5, h6, h7, fun fs => ?_⟩
-        rw [placeBits_absent _ _ _ _ _ htb rfl rfl]
-        exact h8 fs
-      · refine Or.inr ⟨c, h1, fun fs => ?_⟩
-        rw [placeBits_absent _ _ _ _ _ htb rfl rfl]
-        exact h2 fs
-
-
-theorem placeBits_prefix (itLen w : Nat) : ∀ (n b : Nat) (st : Spec.Walk) (pre : List Spec.RtField),
-    Spec.placeBits itLen w n b { st with fields := pre ++ st.fields } =
-      { Spec.placeBits itLen w n b st with fields := pre ++ (Spec.placeBits itLen w n b st).fields } := by
-  intro n
-  induction n with
-  | zero => intro b st pre; rfl
-  | succ n ih =>
-    intro b st pre
-    simp only [Spec.placeBits]
-    split
-    · rfl
-    · split
-      · split
-        · exact ih _ _ _
-        · split
-          · rfl
-          · split
-            · rfl
-            · rw [← ih]; simp only [List.append_assoc]
-      · exact ih _ _ _
-
-
-theorem rtLoop_sim (bs : Bytes) (itLen w : Nat) (hw : w < 2 ^ 29) (hlen : itLen ≤ bs.length) :
-    ∀ (fuel : Nat) (it : RtIt) (b : Nat) (acc : RtInfo × Bool),
-      Pos itLen w it b → b ≤ 29 → 29 - b < fuel → RtArgOk bs it → acc.1.antennas.length = acc.1.antennaCount →
-      ∃ info, rtLoop bs fuel it acc = .ok info ∧
-        valuesOf info = ((Spec.placeBits itLen w (29 - b) b ⟨it.arg, .radiotap, 0, [], false, false⟩).fields.foldl
-          (Spec.valueStep bs 16) (Spec.valueStep bs 16 (valuesOf acc.1, acc.2) ⟨it.thisArgIndex, it.thisArg⟩)).1 := by
-  intro fuel
-  induction fuel with
-  | zero => intro it b acc _ _ h; omega
-  | succ fuel ih =>
-    intro it b acc hpos hb hfuel hok hant
-    obtain ⟨acc', hf, hant', hval⟩ := rtField_sim acc hant hok
-    rw [rtLoop]
-    simp only [hf, Outcome.bind_ok]
-    rcases next_sim bs itLen w hw (29 - b) b (40 * (bs.length + 2)) it (by omega) hpos (by omega) with
-      ⟨it', b', h1, h2, h3, h4, h5, h6, h7, h8⟩ | ⟨c, h1, h2⟩
-    · simp only [h1, Outcome.bind_ok]
-      obtain ⟨info, hi1, hi2⟩ := ih it' (b' + 1) acc' h4 (by omega) (by omega)
-        (Or.inr (Or.inr ⟨by rw [h6, h5], by omega⟩)) hant'
-      refine ⟨info, hi1, ?_⟩
-      have hpre := placeBits_prefix itLen w (28 - b') (b' + 1) ⟨it'.arg, .radiotap, 0, [], false, false⟩ [⟨b', it'.thisArg⟩]
-      simp only [List.append_nil] at hpre
-      rw [hi2, h8 [], List.nil_append, hpre, ← hval, h5, show 29 - (b' + 1) = 28 - b' by omega]
-      simp only [List.cons_append, List.nil_append, List.foldl_cons]
-    · simp only [h1, Outcome.bind_ok]
-      refine ⟨acc'.1, rfl, ?_⟩
-      rw [h2 [], ← hval]
-      rfl
-
 
 /-! ### the header checks -/
 
@@ -472,13 +320,6 @@ theorem rtFields_some {bs : Bytes} {itLen : Nat} {fields : List Spec.RtField}
   cases h
   exact ⟨by omega, by omega, rfl, by omega, by omega, by omega, ws, hws, rfl⟩
 
-theorem walkWord_fields (bs : Bytes) (itLen w : Nat) (st : Spec.Walk) :
-    (Spec.walkWord bs itLen w st).fields = (Spec.placeBits itLen w 29 0 st).fields := by
-  unfold Spec.walkWord
-  simp only []
-  repeat' split
-  all_goals rfl
-
 theorem testBit_of_lt {w b k : Nat} (hw : w < 2 ^ k) (hb : k ≤ b) : w.testBit b = false :=
   Nat.testBit_lt_two_pow (Nat.lt_of_lt_of_le hw (Nat.pow_le_pow_right (by decide) hb))
 
@@ -486,158 +327,6 @@ theorem testBit_of_lt {w b k : Nat} (hw : w < 2 ^ k) (hb : k ≤ b) : w.testBit 
 def it0 (itLen w arg : Nat) : RtIt :=
   { maxLength := itLen, argIndex := 0, shifter := w, arg := arg, nextNsData := wildOffset, nextBitmap := 8,
     resetOnExt := false, inRadiotapNs := true, thisArg := arg, thisArgIndex := 0, thisArgSize := 0 }
-
-theorem rtInit_single {bs : Bytes} (h8 : 8 ≤ bs.length) (hv : Spec.u8 bs 0 = 0) (hl : Spec.u16 bs 2 ≤ bs.length)
-    (hw : (Spec.u32 bs 4).testBit 31 = false) :
-    rtInit bs bs.length = .ok (it0 (Spec.u16 bs 2) (Spec.u32 bs 4) 8) := by
-  unfold rtInit it0
-  have hv' : (bs.getD 0 0).toNat = 0 := hv
-  rw [if_neg (by omega), rd_eq (by omega)]
-  simp only [Outcome.bind_ok, hv', ne_eq, not_true_eq_false, if_false]
-  rw [le16At_u16 (by omega)]
-  simp only [Outcome.bind_ok]
-  rw [if_neg (by omega), le32At_u32 (by omega)]
-  simp only [Outcome.bind_ok, hw, Bool.false_eq_true, if_false]
-
-/-- **T1** a header with a single present word (no EXT / namespace bits): the parser reports exactly the
-values the Spec assigns to the fields the Spec places -/
-theorem C09_decode_single (bs : Bytes) (itLen : Nat) (fields : List Spec.RtField)
-    (h : Spec.rtFields bs = some (itLen, fields)) (hw : Spec.u32 bs 4 < 2 ^ 29) :
-    ∃ info, parseRadiotapInfo bs = .ok info ∧
-      valuesOf info = Spec.rtValues bs itLen fields Gen.m_LIBWIFI_MAX_RADIOTAP_ANTENNAS := by
-  obtain ⟨h8, hv, hit, hi8, hile, hi255, ws, hws, hfields⟩ := rtFields_some h
-  have h31 : (Spec.u32 bs 4).testBit 31 = false := testBit_of_lt hw (by omega)
-  have hws' : ws = [Spec.u32 bs 4] := by
-    rw [Spec.presentWords] at hws
-    simp only [h31, Bool.false_eq_true, if_false] at hws
-    rw [if_neg (by omega)] at hws
-    cases hws; rfl
-  subst hws'
-  simp only [List.foldl_cons, List.foldl_nil, walkWord_fields, List.length_cons, List.length_nil] at hfields
-  unfold parseRadiotapInfo
-  rw [if_neg (by omega), le16At_u16 (by omega)]
-  simp only [Outcome.bind_ok]
-  rw [← hit, if_neg (by omega), rtInit_single h8 hv (by omega) h31, le32At_u32 (by omega)]
-  simp only [Outcome.bind_ok]
-  rw [← hit]
-  obtain ⟨info, hi1, hi2⟩ := rtLoop_sim bs itLen (Spec.u32 bs 4) hw hile (32 * (bs.length + 2))
-    (it0 itLen (Spec.u32 bs 4) 8) 0 ({ length := itLen, present := 0 }, false)
-    ⟨rfl, by simp [it0], rfl, rfl⟩ (by omega) (by omega) (Or.inl rfl) rfl
-  refine ⟨info, hi1, ?_⟩
-  rw [hi2, maxAnt, hfields]
-  rfl
-
-
-theorem valueStep_length (bs : Bytes) (m : Nat) (s : Spec.RtValues × Bool) (f : Spec.RtField) :
-    (Spec.valueStep bs m s f).1.length = s.1.length := by
-  unfold Spec.valueStep
-  simp only []
-  repeat' split
-  all_goals rfl
-
-theorem rtValues_length (bs : Bytes) (itLen : Nat) (fields : List Spec.RtField) (m : Nat) :
-    (Spec.rtValues bs itLen fields m).length = itLen := by
-  unfold Spec.rtValues
-  have : ∀ (fs : List Spec.RtField) (s : Spec.RtValues × Bool),
-      (fs.foldl (Spec.valueStep bs m) s).1.length = s.1.length := by
-    intro fs
-    induction fs with
-    | nil => intro s; rfl
-    | cons f fs ih => intro s; rw [List.foldl_cons, ih, valueStep_length]
-  rw [this]
-
-theorem C09_decode_statement_single : ∀ bs itLen fields, Spec.rtFields bs = some (itLen, fields) →
-    Spec.u32 bs 4 < 2 ^ 29 → ∃ info, parseRadiotapInfo bs = .ok info ∧ info.length = itLen := by
-  intro bs itLen fields h hw
-  obtain ⟨info, h1, h2⟩ := C09_decode_single bs itLen fields h hw
-  refine ⟨info, h1, ?_⟩
-  have : (valuesOf info).length = (Spec.rtValues bs itLen fields Gen.m_LIBWIFI_MAX_RADIOTAP_ANTENNAS).length := by rw [h2]
-  rw [rtValues_length] at this
-  exact this
-
-/-! non-vacuity: FLAGS | RATE | CHANNEL; an undefined field (18) in the middle; a last field running past `it_len` -/
-example : Spec.rtFields [0, 0, 16, 0, 0x0e, 0, 0, 0, 0x12, 0, 0xa8, 0x09, 0x0a, 0, 0xc5, 0] =
-    some (16, [⟨1, 8⟩, ⟨2, 9⟩, ⟨3, 10⟩]) ∧
-    Spec.u32 [0, 0, 16, 0, 0x0e, 0, 0, 0, 0x12, 0, 0xa8, 0x09, 0x0a, 0, 0xc5, 0] 4 < 2 ^ 29 := by
-  decide +kernel
-
-example : Spec.rtFields [0, 0, 14, 0, 0x26, 0, 0x0c, 0, 0x12, 0x0c, 0xd0, 1, 2, 3] =
-    some (14, [⟨1, 8⟩, ⟨2, 9⟩, ⟨5, 10⟩]) ∧
-    Spec.u32 [0, 0, 14, 0, 0x26, 0, 0x0c, 0, 0x12, 0x0c, 0xd0, 1, 2, 3] 4 < 2 ^ 29 := by
-  decide +kernel
-
-example : Spec.rtFields [0, 0, 12, 0, 0x0a, 0, 0, 0, 0x12, 0, 0xa8, 0x09] = some (12, [⟨1, 8⟩]) ∧
-    Spec.u32 [0, 0, 12, 0, 0x0a, 0, 0, 0, 0x12, 0, 0xa8, 0x09] 4 < 2 ^ 29 := by
-  decide +kernel
-
-/-! ### every header: the parser returns 0 with the header's length (`C09_decode_statement`) -/
-
-theorem rd_no_err (what : String) (bs : Bytes) (i : Nat) (c : Int) : rd what bs i ≠ .err c := by
-  unfold rd; split <;> exact fun h => nomatch h
-
-theorem bind_no_err {α β} (x : Outcome α) (f : α → Outcome β) (hx : ∀ c, x ≠ .err c) (hf : ∀ a c, f a ≠ .err c) :
-    ∀ c, (x >>= f) ≠ .err c := by
-  intro c
-  cases x with
-  | ok a => exact hf a c
-  | err c' => exact absurd rfl (hx c')
-  | fault g => exact fun h => nomatch h
-
-theorem le16At_no_err (what : String) (bs : Bytes) (i : Nat) (c : Int) : le16At what bs i ≠ .err c := by
-  unfold le16At
-  exact bind_no_err _ _ (rd_no_err _ _ _) (fun a => bind_no_err _ _ (rd_no_err _ _ _) (fun b c h => by cases h)) c
-
-theorem le32At_no_err (what : String) (bs : Bytes) (i : Nat) (c : Int) : le32At what bs i ≠ .err c := by
-  unfold le32At rdSlice
-  split <;> exact fun h => nomatch h
-
-theorem rtNext_no_err (bs : Bytes) : ∀ (fuel : Nat) (it : RtIt) (c : Int), rtNext bs fuel it ≠ .err c := by
-  intro fuel
-  induction fuel with
-  | zero => intro it c h; rw [rtNext] at h; cases h
-  | succ fuel ih =>
-    intro it c
-    rw [rtNext]
-    simp only []
-    repeat' split
-    all_goals first
-      | (intro h; cases h; done)
-      | exact ih _ _
-      | exact bind_no_err _ _ (le32At_no_err _ _ _) (fun a c => ih _ c) c
-      | exact bind_no_err _ _ (le16At_no_err _ _ _) (fun a c => by split <;> (intro h; cases h)) c
-
-
-/-- the loop ends with `ok` (the C returns 0) and leaves `length` alone, for any well-formed iterator -/
-theorem rtLoop_length (bs : Bytes) : ∀ (fuel : Nat) (it : RtIt) (acc : RtInfo × Bool),
-    RtInv bs it → RtArgOk bs it → rtMu bs it ≤ fuel → acc.1.antennas.length = acc.1.antennaCount →
-    ∃ info, rtLoop bs fuel it acc = .ok info ∧ info.length = acc.1.length := by
-  intro fuel
-  induction fuel with
-  | zero => intro it _ _ _ h; have := rtMu_pos bs it; omega
-  | succ fuel ih =>
-    intro it acc hinv harg hfuel hant
-    obtain ⟨acc', hf, hant', hval⟩ := rtField_sim acc hant harg
-    have hlen' : acc'.1.length = acc.1.length := by
-      have := congrArg (fun p => p.1.length) hval
-      simp only [valueStep_length] at this
-      exact this
-    rw [rtLoop]
-    simp only [hf, Outcome.bind_ok]
-    have hn := rtNext_inv (fuel := 40 * (bs.length + 2)) hinv (by have := rtMu_le hinv; omega)
-    cases hnx : rtNext bs (40 * (bs.length + 2)) it with
-    | fault g => exact absurd hnx (hn.1 g)
-    | err c => exact absurd hnx (rtNext_no_err bs _ _ c)
-    | ok r =>
-      simp only [Outcome.bind_ok]
-      cases r with
-      | stop c => exact ⟨_, rfl, hlen'⟩
-      | hit it' =>
-        obtain ⟨hinv', hmu, hle, hidx⟩ := hn.2 it' hnx
-        obtain ⟨info, h1, h2⟩ := ih it' acc' hinv' (by
-          rcases hidx with h30 | ⟨_, hsz⟩
-          · exact Or.inr (Or.inl h30)
-          · exact Or.inr (Or.inr ⟨hsz, by have := hinv'.1; omega⟩)) (by omega) hant'
-        exact ⟨info, h1, by rw [h2, hlen']⟩
 
 /-! ### the chain of present words: `rtInit` against `Spec.presentWords` -/
 
@@ -731,11 +420,461 @@ theorem rtInit_general {bs : Bytes} {ws : List Nat} (h8 : 8 ≤ bs.length) (hv :
     rw [hcons, hrest]
     rfl
 
-/-- **C09 (decode, every header)**: the statement left open in `Props/C09.lean` — whenever the Spec
-accepts a header, the parser returns 0 and reports the header's own length -/
-theorem C09_decode : C09.C09_decode_statement := by
-  intro bs itLen fields h
-  obtain ⟨h8, hv, hit, hi8, hile, hi255, ws, hws, -⟩ := rtFields_some h
+/-! ### general headers: Spec side, `walkWord` cut at bits 29 / 30 / 31 -/
+
+/-- the end of a word: numbering of the next word's fields -/
+def tail31 (w : Nat) (st : Spec.Walk) : Spec.Walk :=
+  { st with base := if w.testBit 30 then 0 else if w.testBit 29 then 0 else st.base + 32 }
+
+/-- bit 30 of a word: a vendor namespace descriptor follows the word's fields -/
+def tail30 (bs : Bytes) (itLen w : Nat) (st : Spec.Walk) : Spec.Walk :=
+  if w.testBit 30 then
+    if Spec.alignUp st.off 2 + 6 > itLen then { st with bad := true }
+    else if Spec.alignUp st.off 2 + 6 + Spec.u16 bs (Spec.alignUp st.off 2 + 4) > itLen then { st with bad := true }
+    else tail31 w { st with off := Spec.alignUp st.off 2 + 6 + Spec.u16 bs (Spec.alignUp st.off 2 + 4), ns := .vendor }
+  else tail31 w st
+
+/-- bit 29 of a word: back to the radiotap namespace -/
+def tail29 (bs : Bytes) (itLen w : Nat) (st : Spec.Walk) : Spec.Walk :=
+  tail30 bs itLen w (if w.testBit 29 then { st with ns := .radiotap } else st)
+
+theorem walkWord_eq (bs : Bytes) (itLen w : Nat) (st : Spec.Walk) :
+    Spec.walkWord bs itLen w st =
+      if ((Spec.placeBits itLen w 29 0 st).stopped || (Spec.placeBits itLen w 29 0 st).bad) = true
+      then Spec.placeBits itLen w 29 0 st else tail29 bs itLen w (Spec.placeBits itLen w 29 0 st) := by
+  unfold Spec.walkWord tail29 tail30 tail31
+  simp only []
+  repeat' split
+  all_goals first
+    | rfl
+    | (exfalso; simp_all; done)
+
+
+/-- what remains of the walk of word `w` from bit `b` on (`b = 30`: after the bit-29 switch,
+`b = 31`: after the vendor descriptor) -/
+def finish (bs : Bytes) (itLen w b : Nat) (st : Spec.Walk) : Spec.Walk :=
+  if b ≤ 29 then
+    if ((Spec.placeBits itLen w (29 - b) b st).stopped || (Spec.placeBits itLen w (29 - b) b st).bad) = true
+    then Spec.placeBits itLen w (29 - b) b st else tail29 bs itLen w (Spec.placeBits itLen w (29 - b) b st)
+  else if b = 30 then tail30 bs itLen w st
+  else tail31 w st
+
+/-- the final state of the Spec's walk, from bit `b` of word `w` with the words `rest` still to come -/
+def fin (bs : Bytes) (itLen w : Nat) (rest : List Nat) (b : Nat) (st : Spec.Walk) : Spec.Walk :=
+  rest.foldl (fun st w => Spec.walkWord bs itLen w st) (finish bs itLen w b st)
+
+theorem walkWord_finish (bs : Bytes) (itLen w : Nat) (st : Spec.Walk) :
+    Spec.walkWord bs itLen w st = finish bs itLen w 0 st := by
+  rw [walkWord_eq]; rfl
+
+theorem walkWord_done (bs : Bytes) (itLen w : Nat) (st : Spec.Walk) (h : (st.stopped || st.bad) = true) :
+    Spec.walkWord bs itLen w st = st := by
+  rw [walkWord_eq, placeBits_done _ _ _ _ _ h, if_pos h]
+
+theorem walk_done (bs : Bytes) (itLen : Nat) (rest : List Nat) (st : Spec.Walk) (h : (st.stopped || st.bad) = true) :
+    rest.foldl (fun st w => Spec.walkWord bs itLen w st) st = st := by
+  induction rest with
+  | nil => rfl
+  | cons w rest ih => rw [List.foldl_cons, walkWord_done _ _ _ _ h, ih]
+
+theorem finish_absent (bs : Bytes) (itLen w b : Nat) (st : Spec.Walk) (hb : b < 29) (h : w.testBit b = false)
+    (hs : st.stopped = false) (hbad : st.bad = false) : finish bs itLen w b st = finish bs itLen w (b + 1) st := by
+  unfold finish
+  rw [if_pos (show b ≤ 29 by omega), if_pos (show b + 1 ≤ 29 by omega), show 29 - b = (29 - (b + 1)) + 1 by omega,
+    placeBits_absent _ _ _ _ _ h hs hbad]
+
+theorem finish_vendor (bs : Bytes) (itLen w b : Nat) (st : Spec.Walk) (hb : b < 29) (h : w.testBit b = true)
+    (hs : st.stopped = false) (hbad : st.bad = false) (hns : st.ns = .vendor) :
+    finish bs itLen w b st = finish bs itLen w (b + 1) st := by
+  unfold finish
+  rw [if_pos (show b ≤ 29 by omega), if_pos (show b + 1 ≤ 29 by omega), show 29 - b = (29 - (b + 1)) + 1 by omega]
+  conv => lhs; rw [Spec.placeBits]
+  simp [h, hs, hbad, hns]
+
+theorem finish_rt (bs : Bytes) (itLen w b : Nat) (st : Spec.Walk) (hb : b < 29) (h : w.testBit b = true)
+    (hs : st.stopped = false) (hbad : st.bad = false) (hns : st.ns = .radiotap) :
+    finish bs itLen w b st =
+      if st.base + b < Gen.rtapNBits ∧ rtAlign (st.base + b) ≠ 0 then
+        if Spec.alignUp st.off (rtAlign (st.base + b)) + rtSize (st.base + b) > itLen then { st with bad := true }
+        else finish bs itLen w (b + 1)
+          { st with off := Spec.alignUp st.off (rtAlign (st.base + b)) + rtSize (st.base + b),
+                    fields := st.fields ++ [⟨st.base + b, Spec.alignUp st.off (rtAlign (st.base + b))⟩] }
+      else { st with stopped := true } := by
+  unfold finish
+  rw [if_pos (show b ≤ 29 by omega), if_pos (show b + 1 ≤ 29 by omega), show 29 - b = (29 - (b + 1)) + 1 by omega,
+    placeBits_rt _ _ _ _ _ h hs hbad hns]
+  split
+  · split
+    · simp
+    · rfl
+  · simp
+
+theorem finish_29 (bs : Bytes) (itLen w : Nat) (st : Spec.Walk) (hs : st.stopped = false) (hbad : st.bad = false) :
+    finish bs itLen w 29 st = finish bs itLen w 30 (if w.testBit 29 then { st with ns := .radiotap } else st) := by
+  unfold finish
+  simp [Spec.placeBits, hs, hbad, tail29]
+
+theorem finish_30 (bs : Bytes) (itLen w : Nat) (st : Spec.Walk) :
+    finish bs itLen w 30 st =
+      if w.testBit 30 then
+        if Spec.alignUp st.off 2 + 6 > itLen then { st with bad := true }
+        else if Spec.alignUp st.off 2 + 6 + Spec.u16 bs (Spec.alignUp st.off 2 + 4) > itLen then { st with bad := true }
+        else finish bs itLen w 31
+          { st with off := Spec.alignUp st.off 2 + 6 + Spec.u16 bs (Spec.alignUp st.off 2 + 4), ns := .vendor }
+      else finish bs itLen w 31 st := by
+  unfold finish
+  simp [tail30]
+
+theorem fin_31 (bs : Bytes) (itLen w w' : Nat) (rest : List Nat) (st : Spec.Walk) :
+    fin bs itLen w (w' :: rest) 31 st = fin bs itLen w' rest 0 (tail31 w st) := by
+  unfold fin
+  rw [List.foldl_cons, walkWord_finish]
+  simp [finish]
+
+
+/-! ### general headers: model side, bits 29 / 30 / 31 -/
+
+theorem rtNext_ns29 (bs : Bytes) (fuel : Nat) (it : RtIt) (hp : it.shifter % 2 = 1) (hb : it.argIndex % 32 = 29)
+    (hfit : it.arg ≤ it.maxLength) :
+    rtNext bs (fuel + 1) it =
+      rtNext bs fuel (nextEntry { it with thisArgIndex := it.argIndex, thisArg := it.arg, thisArgSize := 0,
+                                          resetOnExt := true, inRadiotapNs := true }) := by
+  rw [rtNext]
+  have : ¬ (it.maxLength < it.arg) := by omega
+  simp [hp, hb, Nat.mod_one, this]
+
+theorem rtNext_load (bs : Bytes) (fuel : Nat) (it : RtIt) (hp : it.shifter % 2 = 1) (hb : it.argIndex % 32 = 31)
+    (hfit : it.arg ≤ it.maxLength) :
+    rtNext bs (fuel + 1) it = (do
+      let w ← le32At "radiotap" bs it.nextBitmap
+      rtNext bs fuel { it with thisArgIndex := it.argIndex, thisArg := it.arg, thisArgSize := 0, shifter := w,
+                               nextBitmap := it.nextBitmap + 4,
+                               argIndex := if it.resetOnExt then 0 else it.argIndex + 1, resetOnExt := false }) := by
+  rw [rtNext]
+  have : ¬ (it.maxLength < it.arg) := by omega
+  simp [hp, hb, Nat.mod_one, this]
+
+theorem rtNext_vendor (bs : Bytes) (fuel : Nat) (it : RtIt) (hp : it.shifter % 2 = 1) (hb : it.argIndex % 32 = 30) :
+    rtNext bs (fuel + 1) it =
+      if Spec.alignUp it.arg 2 + 6 > it.maxLength then .ok (.stop (-EINVAL))
+      else (do
+        let vnslen ← le16At "radiotap" bs (Spec.alignUp it.arg 2 + 4)
+        if Spec.alignUp it.arg 2 + (6 + vnslen) > it.maxLength then .ok (.stop (-EINVAL))
+        else .ok (.hit (nextEntry { it with nextNsData := Spec.alignUp it.arg 2 + 6 + vnslen, inRadiotapNs := false,
+                                            thisArgIndex := 30, thisArg := Spec.alignUp it.arg 2,
+                                            thisArgSize := 6 + vnslen, arg := Spec.alignUp it.arg 2 + (6 + vnslen),
+                                            resetOnExt := true }))) := by
+  rw [rtNext]
+  rw [← align_eq it.arg 2 (by decide)]
+  simp [hp, hb]
+
+
+/-! ### general headers: the simulation -/
+
+/-- the words still to come after `w`: the Spec's chain continues where the iterator will load from -/
+def Rest (bs : Bytes) (itLen w nb : Nat) (rest : List Nat) : Prop :=
+  if w.testBit 31 then ∃ f, Spec.presentWords bs itLen f nb = some rest else rest = []
+
+/-- the iterator stands before bit `b` of word `w`; `st` is the Spec's walk state at that point -/
+structure Live (bs : Bytes) (itLen w : Nat) (rest : List Nat) (it : RtIt) (st : Spec.Walk) (b : Nat) : Prop where
+  ml : it.maxLength = itLen
+  le : itLen ≤ bs.length
+  arg : it.arg = st.off
+  fit : it.arg ≤ itLen
+  ns : it.inRadiotapNs = decide (st.ns = .radiotap)
+  vns : st.ns = .vendor → it.nextNsData = it.arg
+  idx : it.argIndex = st.base + b
+  base : st.base % 32 = 0
+  b31 : b ≤ 31
+  sh : it.shifter = w / 2 ^ b
+  live : st.stopped = false
+  good : st.bad = false
+  r1 : b ≤ 29 → it.resetOnExt = false
+  r2 : b = 30 → it.resetOnExt = w.testBit 29
+  r3 : b = 31 → it.resetOnExt = (w.testBit 29 || w.testBit 30)
+  rest : Rest bs itLen w it.nextBitmap rest
+
+def mu (rest : List Nat) (b : Nat) : Nat := 32 * rest.length + (32 - b)
+
+/-- what a call of `rtNext` does, in the Spec's terms: the next field (or vendor descriptor) with the walk
+advanced past it, or the end with no further field -/
+def NextG (bs : Bytes) (itLen : Nat) (st : Spec.Walk) (b w : Nat) (rest : List Nat) (r : Outcome RtNext) : Prop :=
+  (∃ it' st' b' w' rest', r = .ok (.hit it') ∧ Live bs itLen w' rest' it' st' b' ∧ mu rest' b' < mu rest b ∧
+      fin bs itLen w rest b st = fin bs itLen w' rest' b' st' ∧ it'.thisArg + it'.thisArgSize ≤ itLen ∧
+      ((it'.thisArgIndex = 30 ∧ st'.fields = st.fields) ∨
+       (it'.thisArgSize = rtSize it'.thisArgIndex ∧ st'.fields = st.fields ++ [⟨it'.thisArgIndex, it'.thisArg⟩]))) ∨
+  (∃ c, r = .ok (.stop c) ∧ (fin bs itLen w rest b st).fields = st.fields)
+
+theorem NextG.trip {bs : Bytes} {itLen : Nat} {st st1 : Spec.Walk} {b b1 w w1 : Nat} {rest rest1 : List Nat}
+    {r : Outcome RtNext} (h : NextG bs itLen st1 b1 w1 rest1 r) (hmu : mu rest1 b1 < mu rest b)
+    (hfin : fin bs itLen w rest b st = fin bs itLen w1 rest1 b1 st1) (hf : st1.fields = st.fields) :
+    NextG bs itLen st b w rest r := by
+  rcases h with ⟨it', st', b', w', rest', h1, h2, h3, h4, h5, h6⟩ | ⟨c, h1, h2⟩
+  · exact Or.inl ⟨it', st', b', w', rest', h1, h2, by omega, by rw [hfin, h4], h5, by rw [← hf]; exact h6⟩
+  · exact Or.inr ⟨c, h1, by rw [hfin, h2, hf]⟩
+
+theorem fin_done (bs : Bytes) (itLen w : Nat) (rest : List Nat) (b : Nat) (st x : Spec.Walk)
+    (h : finish bs itLen w b st = x) (hx : (x.stopped || x.bad) = true) : fin bs itLen w rest b st = x := by
+  unfold fin; rw [h, walk_done _ _ _ _ hx]
+
+
+theorem ns_cases (n : Spec.Ns) : n = .radiotap ∨ n = .vendor := by cases n <;> simp
+
+theorem next_simG (bs : Bytes) (itLen : Nat) : ∀ (fuel : Nat) (it : RtIt) (st : Spec.Walk) (b w : Nat) (rest : List Nat),
+    Live bs itLen w rest it st b → mu rest b ≤ fuel → NextG bs itLen st b w rest (rtNext bs fuel it) := by
+  intro fuel
+  induction fuel with
+  | zero => intro it st b w rest hl hmu; have := hl.b31; unfold mu at hmu; omega
+  | succ fuel ih =>
+    intro it st b w rest hl hmu
+    have hb31 := hl.b31
+    have hmod : it.argIndex % 32 = b := by have := hl.idx; have := hl.base; omega
+    have htbeq : w.testBit b = decide (it.shifter % 2 = 1) := by rw [testBit_shifter, hl.sh]
+    by_cases hp : it.shifter % 2 = 1
+    · have htb : w.testBit b = true := by rw [htbeq]; simp [hp]
+      by_cases hb29 : b < 29
+      · rcases ns_cases st.ns with hns | hns
+        · -- a field of the radiotap namespace
+          have hins : it.inRadiotapNs = true := by rw [hl.ns]; simp [hns]
+          have hfin := finish_rt bs itLen w b st hb29 htb hl.live hl.good hns
+          by_cases hdef : st.base + b < Gen.rtapNBits ∧ rtAlign (st.base + b) ≠ 0
+          · have hstep := rtNext_field bs fuel it hp (by omega) hins (by rw [hl.idx]; exact hdef.1)
+              (by rw [hl.idx]; exact hdef.2)
+            rw [if_pos hdef] at hfin
+            by_cases hfit : Spec.alignUp st.off (rtAlign (st.base + b)) + rtSize (st.base + b) > itLen
+            · rw [if_pos hfit] at hfin
+              rw [hstep, hl.idx, hl.arg, hl.ml, if_pos hfit]
+              exact Or.inr ⟨_, rfl, by rw [fin_done _ _ _ _ _ _ _ hfin (by simp)]⟩
+            · rw [if_neg hfit] at hfin
+              rw [hstep, if_neg (by rw [hl.idx, hl.arg, hl.ml]; exact hfit)]
+              refine Or.inl ⟨_, _, b + 1, w, rest, rfl, ?_, by unfold mu; omega, by unfold fin; rw [hfin], ?_, Or.inr ⟨rfl, ?_⟩⟩
+              · exact {
+                  ml := hl.ml, le := hl.le
+                  arg := by show Spec.alignUp it.arg (rtAlign it.argIndex) + rtSize it.argIndex = _; rw [hl.idx, hl.arg]
+                  fit := by show Spec.alignUp it.arg (rtAlign it.argIndex) + rtSize it.argIndex ≤ _; rw [hl.idx, hl.arg]; omega
+                  ns := hl.ns
+                  vns := fun h => by rw [hns] at h; cases h
+                  idx := by show it.argIndex + 1 = _; rw [hl.idx]; rfl
+                  base := hl.base, b31 := by omega
+                  sh := by show it.shifter / 2 = _; rw [hl.sh, pow_shift]
+                  live := hl.live, good := hl.good
+                  r1 := fun _ => hl.r1 (by omega), r2 := fun h => by omega, r3 := fun h => by omega
+                  rest := hl.rest }
+              · show Spec.alignUp it.arg (rtAlign it.argIndex) + rtSize it.argIndex ≤ itLen
+                rw [hl.idx, hl.arg]; omega
+              · show _ = st.fields ++ [⟨it.argIndex, Spec.alignUp it.arg (rtAlign it.argIndex)⟩]
+                rw [hl.idx, hl.arg]
+          · rw [if_neg hdef] at hfin
+            have hund : Gen.rtapNBits ≤ it.argIndex ∨ rtAlign it.argIndex = 0 := by
+              rw [hl.idx]
+              by_cases hN : Gen.rtapNBits ≤ st.base + b
+              · exact Or.inl hN
+              · by_cases h : rtAlign (st.base + b) = 0
+                · exact Or.inr h
+                · exact absurd ⟨by omega, h⟩ hdef
+            rw [rtNext_beyond bs fuel it hp (by omega) hins hund]
+            exact Or.inr ⟨_, rfl, by rw [fin_done _ _ _ _ _ _ _ hfin (by simp)]⟩
+        · -- a field of a vendor namespace: skipped
+          have hins : it.inRadiotapNs = false := by rw [hl.ns]; simp [hns]
+          rw [rtNext_giveup bs fuel it hp (by omega) hins]
+          refine (ih _ st (b + 1) w rest ?_ (by unfold mu at hmu ⊢; omega)).trip (by unfold mu; omega)
+            (by unfold fin; rw [finish_vendor bs itLen w b st hb29 htb hl.live hl.good hns]) rfl
+          exact {
+            ml := hl.ml, le := hl.le
+            arg := by show it.nextNsData = _; rw [hl.vns hns, hl.arg]
+            fit := by show it.nextNsData ≤ _; rw [hl.vns hns]; exact hl.fit
+            ns := by show false = _; simp [hns]
+            vns := fun _ => rfl
+            idx := by show it.argIndex + 1 = _; rw [hl.idx]; rfl
+            base := hl.base, b31 := by omega
+            sh := by show it.shifter / 2 = _; rw [hl.sh, pow_shift]
+            live := hl.live, good := hl.good
+            r1 := fun _ => hl.r1 (by omega), r2 := fun h => by omega, r3 := fun h => by omega
+            rest := hl.rest }
+      · have hb3 : b = 29 ∨ b = 30 ∨ b = 31 := by omega
+        rcases hb3 with rfl | rfl | rfl
+        · -- bit 29: back to the radiotap namespace
+          rw [rtNext_ns29 bs fuel it hp hmod (by rw [hl.ml]; exact hl.fit)]
+          refine (ih _ { st with ns := .radiotap } 30 w rest ?_ (by unfold mu at hmu ⊢; omega)).trip (by unfold mu; omega)
+            (by unfold fin; rw [finish_29 bs itLen w st hl.live hl.good, htb]; rfl) rfl
+          exact {
+            ml := hl.ml, le := hl.le, arg := hl.arg, fit := hl.fit
+            ns := by show true = _; simp
+            vns := fun h => by cases h
+            idx := by show it.argIndex + 1 = _; rw [hl.idx]
+            base := hl.base, b31 := by omega
+            sh := by show it.shifter / 2 = _; rw [hl.sh, pow_shift]
+            live := hl.live, good := hl.good
+            r1 := fun h => by omega, r2 := fun _ => by show true = _; rw [htb], r3 := fun h => by omega
+            rest := hl.rest }
+        · -- bit 30: a vendor namespace descriptor
+          have hfin := finish_30 bs itLen w st
+          rw [htb, if_pos rfl] at hfin
+          rw [rtNext_vendor bs fuel it hp hmod, hl.arg, hl.ml]
+          by_cases hf1 : Spec.alignUp st.off 2 + 6 > itLen
+          · rw [if_pos hf1] at hfin ⊢
+            exact Or.inr ⟨_, rfl, by rw [fin_done _ _ _ _ _ _ _ hfin (by simp)]⟩
+          · rw [if_neg hf1] at hfin ⊢
+            rw [le16At_u16 (by have := hl.le; omega)]
+            simp only [Outcome.bind_ok]
+            by_cases hf2 : Spec.alignUp st.off 2 + 6 + Spec.u16 bs (Spec.alignUp st.off 2 + 4) > itLen
+            · rw [if_pos hf2] at hfin
+              rw [if_pos (by omega)]
+              exact Or.inr ⟨_, rfl, by rw [fin_done _ _ _ _ _ _ _ hfin (by simp)]⟩
+            · rw [if_neg hf2] at hfin
+              rw [if_neg (by omega)]
+              refine Or.inl ⟨_, { st with off := Spec.alignUp st.off 2 + 6 + Spec.u16 bs (Spec.alignUp st.off 2 + 4), ns := .vendor },
+                31, w, rest, rfl, ?_, by unfold mu; omega, by unfold fin; rw [hfin], ?_, Or.inl ⟨rfl, rfl⟩⟩
+              · exact {
+                  ml := rfl, le := hl.le
+                  arg := by show Spec.alignUp st.off 2 + (6 + _) = Spec.alignUp st.off 2 + 6 + _; omega
+                  fit := by show Spec.alignUp st.off 2 + (6 + _) ≤ _; omega
+                  ns := by show false = _; simp
+                  vns := fun _ => by show Spec.alignUp st.off 2 + 6 + _ = Spec.alignUp st.off 2 + (6 + _); omega
+                  idx := by show it.argIndex + 1 = _; rw [hl.idx]
+                  base := hl.base, b31 := by omega
+                  sh := by show it.shifter / 2 = _; rw [hl.sh, pow_shift]
+                  live := hl.live, good := hl.good
+                  r1 := fun h => by omega, r2 := fun h => by omega
+                  r3 := fun _ => by show true = _; rw [htb]; simp
+                  rest := hl.rest }
+              · show Spec.alignUp st.off 2 + (6 + _) ≤ itLen; omega
+        · -- bit 31: the next present word
+          have hrest := hl.rest
+          unfold Rest at hrest
+          rw [htb, if_pos rfl] at hrest
+          obtain ⟨f, hpw⟩ := hrest
+          have hfit := presentWords_fit hpw
+          obtain ⟨f, rfl⟩ : ∃ k, f = k + 1 := by
+            cases f with
+            | zero => rw [Spec.presentWords] at hpw; cases hpw
+            | succ k => exact ⟨k, rfl⟩
+          obtain ⟨rest', hcons, hrest'⟩ := presentWords_cons hpw
+          subst hcons
+          rw [rtNext_load bs fuel it hp hmod (by rw [hl.ml]; exact hl.fit), le32At_u32 (by have := hl.le; omega)]
+          simp only [Outcome.bind_ok]
+          refine (ih _ (tail31 w st) 0 (Spec.u32 bs it.nextBitmap) rest' ?_
+            (by unfold mu at hmu ⊢; simp only [List.length_cons] at hmu; omega)).trip
+            (by unfold mu; simp only [List.length_cons]; omega) (fin_31 bs itLen w _ rest' st) rfl
+          exact {
+            ml := hl.ml, le := hl.le, arg := hl.arg, fit := hl.fit, ns := hl.ns, vns := hl.vns
+            idx := by
+              show (if it.resetOnExt = true then 0 else it.argIndex + 1) = (tail31 w st).base + 0
+              rw [hl.r3 rfl, hl.idx]
+              unfold tail31
+              cases w.testBit 29 <;> cases w.testBit 30 <;> simp
+            base := by
+              unfold tail31
+              have := hl.base
+              cases w.testBit 29 <;> cases w.testBit 30 <;> simp <;> omega
+            b31 := by omega
+            sh := by show Spec.u32 bs it.nextBitmap = _; simp
+            live := hl.live, good := hl.good
+            r1 := fun _ => rfl, r2 := fun h => by omega, r3 := fun h => by omega
+            rest := by
+              show Rest bs itLen _ (it.nextBitmap + 4) rest'
+              unfold Rest
+              split
+              · rename_i h31; rw [if_pos h31] at hrest'; exact ⟨_, hrest'⟩
+              · rename_i h31; rw [if_neg h31] at hrest'; exact hrest' }
+    · have hp0 : it.shifter % 2 = 0 := by omega
+      have htb : w.testBit b = false := by rw [htbeq]; simp [hp]
+      by_cases h31 : b = 31
+      · subst h31
+        rw [rtNext_end bs fuel it hp0 hmod]
+        have hrest := hl.rest
+        unfold Rest at hrest
+        rw [htb, if_neg (by simp)] at hrest
+        subst hrest
+        exact Or.inr ⟨_, rfl, rfl⟩
+      · rw [rtNext_absent bs fuel it hp0 (by omega)]
+        refine (ih _ st (b + 1) w rest ?_ (by unfold mu at hmu ⊢; omega)).trip (by unfold mu; omega) ?_ rfl
+        · exact {
+            ml := hl.ml, le := hl.le, arg := hl.arg, fit := hl.fit, ns := hl.ns, vns := hl.vns
+            idx := by show it.argIndex + 1 = _; rw [hl.idx]; rfl
+            base := hl.base, b31 := by omega
+            sh := by show it.shifter / 2 = _; rw [hl.sh, pow_shift]
+            live := hl.live, good := hl.good
+            r1 := fun _ => hl.r1 (by omega)
+            r2 := fun h => by
+              have : b = 29 := by omega
+              subst this
+              show it.resetOnExt = _
+              rw [hl.r1 (by omega), htb]
+            r3 := fun h => by
+              have : b = 30 := by omega
+              subst this
+              show it.resetOnExt = _
+              rw [hl.r2 rfl, htb]; simp
+            rest := hl.rest }
+        · unfold fin
+          by_cases hb29 : b < 29
+          · rw [finish_absent bs itLen w b st hb29 htb hl.live hl.good]
+          · have hb2 : b = 29 ∨ b = 30 := by omega
+            rcases hb2 with rfl | rfl
+            · rw [finish_29 bs itLen w st hl.live hl.good, htb]; rfl
+            · rw [finish_30, htb]; rfl
+
+
+theorem rtLoop_simG (bs : Bytes) (itLen : Nat) (s0 : Spec.RtValues × Bool) :
+    ∀ (fuel : Nat) (it : RtIt) (st : Spec.Walk) (b w : Nat) (rest : List Nat) (acc : RtInfo × Bool),
+      Live bs itLen w rest it st b → mu rest b < fuel → mu rest b ≤ 40 * (bs.length + 2) → RtArgOk bs it →
+      acc.1.antennas.length = acc.1.antennaCount →
+      Spec.valueStep bs 16 (valuesOf acc.1, acc.2) ⟨it.thisArgIndex, it.thisArg⟩ =
+        st.fields.foldl (Spec.valueStep bs 16) s0 →
+      ∃ info, rtLoop bs fuel it acc = .ok info ∧
+        valuesOf info = ((fin bs itLen w rest b st).fields.foldl (Spec.valueStep bs 16) s0).1 := by
+  intro fuel
+  induction fuel with
+  | zero => intro it st b w rest acc _ h; omega
+  | succ fuel ih =>
+    intro it st b w rest acc hl hfuel hmu hok hant hinv
+    obtain ⟨acc', hf, hant', hval⟩ := rtField_sim acc hant hok
+    rw [hinv] at hval
+    rw [rtLoop]
+    simp only [hf, Outcome.bind_ok]
+    rcases next_simG bs itLen (40 * (bs.length + 2)) it st b w rest hl hmu with
+      ⟨it', st', b', w', rest', h1, h2, h3, h4, h5, h6⟩ | ⟨c, h1, h2⟩
+    · simp only [h1, Outcome.bind_ok]
+      have hok' : RtArgOk bs it' := by
+        rcases h6 with ⟨h30, _⟩ | ⟨hsz, _⟩
+        · exact Or.inr (Or.inl h30)
+        · exact Or.inr (Or.inr ⟨hsz, by have := h2.le; omega⟩)
+      have hinv' : Spec.valueStep bs 16 (valuesOf acc'.1, acc'.2) ⟨it'.thisArgIndex, it'.thisArg⟩ =
+          st'.fields.foldl (Spec.valueStep bs 16) s0 := by
+        rcases h6 with ⟨h30, hfs⟩ | ⟨_, hfs⟩
+        · rw [hfs, hval, valueStep_other]
+          simp only [h30]; decide
+        · rw [hfs, hval, List.foldl_append]; rfl
+      obtain ⟨info, hi1, hi2⟩ := ih it' st' b' w' rest' acc' h2 (by omega) (by omega) hok' hant' hinv'
+      exact ⟨info, hi1, by rw [hi2, h4]⟩
+    · simp only [h1, Outcome.bind_ok]
+      exact ⟨acc'.1, rfl, by rw [h2, ← hval]⟩
+
+theorem presentWords_len {bs : Bytes} {itLen : Nat} : ∀ (f off : Nat) (ws : List Nat),
+    Spec.presentWords bs itLen f off = some ws → off + 4 * ws.length ≤ itLen := by
+  intro f
+  induction f with
+  | zero => intro off ws h; rw [Spec.presentWords] at h; cases h
+  | succ f ih =>
+    intro off ws h
+    have hfit := presentWords_fit h
+    obtain ⟨rest, hcons, hrest⟩ := presentWords_cons h
+    subst hcons
+    split at hrest
+    · have := ih _ _ hrest; simp only [List.length_cons]; omega
+    · subst hrest; simp only [List.length_cons, List.length_nil]; omega
+
+/-- **T3** every header the Spec accepts — several present words, namespace resets (bit 29), vendor
+namespaces (bit 30), numbering continued into the next word —: the parser reports exactly the values
+the Spec assigns to the fields the Spec places -/
+theorem C09_decode_full (bs : Bytes) (itLen : Nat) (fields : List Spec.RtField)
+    (h : Spec.rtFields bs = some (itLen, fields)) :
+    ∃ info, parseRadiotapInfo bs = .ok info ∧
+      valuesOf info = Spec.rtValues bs itLen fields Gen.m_LIBWIFI_MAX_RADIOTAP_ANTENNAS := by
+  obtain ⟨h8, hv, hit, hi8, hile, hi255, ws, hws, hfields⟩ := rtFields_some h
+  obtain ⟨rest, hcons, hrest⟩ := presentWords_cons hws
+  have hwl := presentWords_len _ _ _ hws
   unfold parseRadiotapInfo
   rw [if_neg (by omega), le16At_u16 (by omega)]
   simp only [Outcome.bind_ok]
@@ -743,9 +882,87 @@ theorem C09_decode : C09.C09_decode_statement := by
   have hinit := rtInit_general h8 hv (by omega) (by rw [← hit]; exact hws)
   rw [hinit, le32At_u32 (by omega)]
   simp only [Outcome.bind_ok]
-  have hinv := rtInit_inv hinit (Nat.le_refl _)
-  obtain ⟨info, h1, h2⟩ := rtLoop_length bs (32 * (bs.length + 2)) _ ({ length := itLen, present := 0 }, false) hinv
-    (Or.inl rfl) (by have := rtMu_le hinv; omega) rfl
-  exact ⟨info, h1, h2⟩
+  rw [← hit]
+  have hlive : Live bs itLen (Spec.u32 bs 4) rest (it0 itLen (Spec.u32 bs 4) (4 + 4 * ws.length))
+      ⟨4 + 4 * ws.length, .radiotap, 0, [], false, false⟩ 0 := {
+    ml := rfl, le := hile, arg := rfl
+    fit := by show 4 + 4 * ws.length ≤ itLen; omega
+    ns := rfl
+    vns := fun h => by cases h
+    idx := rfl, base := rfl
+    b31 := by omega
+    sh := by show Spec.u32 bs 4 = _; simp
+    live := rfl, good := rfl, r1 := fun _ => rfl
+    r2 := fun h => by omega
+    r3 := fun h => by omega
+    rest := by
+      show Rest bs itLen _ 8 rest
+      unfold Rest
+      split
+      · rename_i h31; rw [if_pos h31] at hrest; exact ⟨_, hrest⟩
+      · rename_i h31; rw [if_neg h31] at hrest; exact hrest }
+  have hmu : mu rest 0 = 8 * (4 * ws.length) := by
+    unfold mu; rw [hcons]; simp only [List.length_cons]; omega
+  obtain ⟨info, hi1, hi2⟩ := rtLoop_simG bs itLen ({ length := itLen }, false) (32 * (bs.length + 2)) _ _ 0 _ rest
+    ({ length := itLen, present := 0 }, false) hlive (by omega) (by omega) (Or.inl rfl) rfl rfl
+  refine ⟨info, hi1, ?_⟩
+  rw [hi2, maxAnt, hfields, hcons]
+  unfold fin Spec.rtValues
+  rw [List.foldl_cons, walkWord_finish]
+
+/-! ### corollaries -/
+
+/-- **T1** a header with a single present word (no EXT / namespace bits) -/
+theorem C09_decode_single (bs : Bytes) (itLen : Nat) (fields : List Spec.RtField)
+    (h : Spec.rtFields bs = some (itLen, fields)) (_hw : Spec.u32 bs 4 < 2 ^ 29) :
+    ∃ info, parseRadiotapInfo bs = .ok info ∧
+      valuesOf info = Spec.rtValues bs itLen fields Gen.m_LIBWIFI_MAX_RADIOTAP_ANTENNAS :=
+  C09_decode_full bs itLen fields h
+
+theorem valueStep_length (bs : Bytes) (m : Nat) (s : Spec.RtValues × Bool) (f : Spec.RtField) :
+    (Spec.valueStep bs m s f).1.length = s.1.length := by
+  unfold Spec.valueStep
+  simp only []
+  repeat' split
+  all_goals rfl
+
+theorem rtValues_length (bs : Bytes) (itLen : Nat) (fields : List Spec.RtField) (m : Nat) :
+    (Spec.rtValues bs itLen fields m).length = itLen := by
+  unfold Spec.rtValues
+  have : ∀ (fs : List Spec.RtField) (s : Spec.RtValues × Bool),
+      (fs.foldl (Spec.valueStep bs m) s).1.length = s.1.length := by
+    intro fs
+    induction fs with
+    | nil => intro s; rfl
+    | cons f fs ih => intro s; rw [List.foldl_cons, ih, valueStep_length]
+  rw [this]
+
+/-- the statement left open in `Props/C09.lean`, for every header -/
+theorem C09_decode : C09.C09_decode_statement := by
+  intro bs itLen fields h
+  obtain ⟨info, h1, h2⟩ := C09_decode_full bs itLen fields h
+  refine ⟨info, h1, ?_⟩
+  have : (valuesOf info).length = (Spec.rtValues bs itLen fields Gen.m_LIBWIFI_MAX_RADIOTAP_ANTENNAS).length := by rw [h2]
+  rw [rtValues_length] at this
+  exact this
+
+theorem C09_decode_statement_single : ∀ bs itLen fields, Spec.rtFields bs = some (itLen, fields) →
+    Spec.u32 bs 4 < 2 ^ 29 → ∃ info, parseRadiotapInfo bs = .ok info ∧ info.length = itLen :=
+  fun bs itLen fields h _ => C09_decode bs itLen fields h
+
+/-! non-vacuity: FLAGS | RATE | CHANNEL; an undefined field (18) in the middle; a last field running past `it_len` -/
+example : Spec.rtFields [0, 0, 16, 0, 0x0e, 0, 0, 0, 0x12, 0, 0xa8, 0x09, 0x0a, 0, 0xc5, 0] =
+    some (16, [⟨1, 8⟩, ⟨2, 9⟩, ⟨3, 10⟩]) ∧
+    Spec.u32 [0, 0, 16, 0, 0x0e, 0, 0, 0, 0x12, 0, 0xa8, 0x09, 0x0a, 0, 0xc5, 0] 4 < 2 ^ 29 := by
+  decide +kernel
+
+example : Spec.rtFields [0, 0, 14, 0, 0x26, 0, 0x0c, 0, 0x12, 0x0c, 0xd0, 1, 2, 3] =
+    some (14, [⟨1, 8⟩, ⟨2, 9⟩, ⟨5, 10⟩]) ∧
+    Spec.u32 [0, 0, 14, 0, 0x26, 0, 0x0c, 0, 0x12, 0x0c, 0xd0, 1, 2, 3] 4 < 2 ^ 29 := by
+  decide +kernel
+
+example : Spec.rtFields [0, 0, 12, 0, 0x0a, 0, 0, 0, 0x12, 0, 0xa8, 0x09] = some (12, [⟨1, 8⟩]) ∧
+    Spec.u32 [0, 0, 12, 0, 0x0a, 0, 0, 0, 0x12, 0, 0xa8, 0x09] 4 < 2 ^ 29 := by
+  decide +kernel
 
 end LWV.Props.C09Full
